@@ -70,8 +70,12 @@ def gen_query(rng, cfg, idx):
             labels = list(base[:-1]) + [rng.choice(VOCAB)]
     elif r < 0.9:
         labels = vocab_name(rng, 4)
-    else:
+    elif r < 0.96:
         labels = gens.rand_labels(rng, exotic=0.3)
+    else:
+        # a long name: the forwarded query is 256 octets or more (stream length prefix with a non-zero high octet)
+        rl = lambda k: bytes(rng.choice(b"abcdefghijklmnopqrstuvwxyz0123456789") for _ in range(k))
+        labels = [rl(63), rl(63), rl(63), rl(rng.choice([29, 45, 56, 57, 58]))]
     # mixed case
     if rng.random() < 0.4:
         labels = [bytes(c - 32 if 97 <= c <= 122 and rng.random() < 0.5 else c for c in l) for l in labels]
@@ -149,12 +153,20 @@ def gen_reply(rng, name, qtype, qclass, k4=False, big=False):
     qs = [(labels, qtype, qclass)]
     if k4:
         c = rng.random()
-        if c < 0.4:
+        if c < 0.25:
             qs = [(vocab_name(rng), qtype, qclass)]
-        elif c < 0.7:
+        elif c < 0.45:
             qs = [(labels, qtype, qclass), (vocab_name(rng), 1, 1)]
-        else:
+        elif c < 0.6:
             qs = [(labels, (qtype % 65535) + 1, qclass)]
+        elif c < 0.75:
+            qs = [(labels + [rng.choice(VOCAB)], qtype, qclass)]              # the asked name plus trailing labels
+        elif c < 0.85 and len(labels) > 0:
+            qs = [(labels[:-1], qtype, qclass)]                                # a proper prefix of the asked name
+        elif c < 0.93:
+            qs = [([rng.choice(VOCAB)] + labels, qtype, qclass)]              # a subdomain of the asked name
+        else:
+            qs = [(labels, qtype, (qclass % 65535) + 1)]
     elif rng.random() < 0.05:
         qs = []
     nan = rng.choice([0, 1, 1, 2, 3, 6]) if not big else rng.choice([40, 70, 120])
@@ -499,6 +511,28 @@ PROPS["C07"]["kinds"].append(dict(name="cachedseq", gen=cachedseq_gen, oracle=ca
 PROPS["C07"]["rule"] += ("; cachedseq: repeated questions through the real listeners of a caching proxy, every response compared "
                          "octet for octet with the caching-proxy model (Router/Cached.v)")
 PROPS["C09"]["kinds"].append(handle_kind(["c09-"]))
+
+
+def advreply_gen(rng, tier):
+    """C01: well-formed but ADVERSARIAL upstream replies (question section differing from the question asked in every
+    way: other name, longer / shorter / sub-domain name, other type or class, several questions) must neither crash
+    the proxy nor stop it from answering — the handle kind restricted to them"""
+    cfg = tuple(boundary_cfgs()[1])
+    spec = cfg_spec(cfg)
+    out = []
+    for i in range(budget(tier, 160, 4000)):
+        idx = 70000 + i
+        q, name, qtype, qclass = gen_query(rng, cfg, idx)
+        l = rng.choice(["udp", "tcp", "gnet", "http-post", "fasthttp-post"])
+        out.append("a%d cfg=%s l=%s client=- q=%s up=reply:%s" % (idx, spec, l, gens.hx(q),
+                                                                 gens.hx(gen_reply(rng, name, qtype, qclass, k4=True))))
+    return out
+
+
+PROPS["C01"]["kinds"].append(dict(handle_kind(["c03-"]), gen=advreply_gen))
+PROPS["C01"]["rule"] += ("; handle (adversarial replies): upstream replies whose question section differs from the question asked "
+                         "(other / longer / shorter / sub-domain name, other type or class, several questions) through the real "
+                         "listeners: no crash, exactly one response, compared with the model")
 
 
 def frame_gen(rng, tier):
